@@ -10,6 +10,7 @@ import (
 	"path/filepath"
 	"regexp"
 	"slices"
+	"strings"
 	"sync"
 
 	"github.com/jessevdk/go-flags"
@@ -283,6 +284,15 @@ func (p *Policy) AddToSuspiciousPeerList(pubkey string) error {
 }
 
 func addLineToFile(filePath, line string) error {
+	// A hand-edited file may lack the final newline; appending to it as is
+	// would glue the new entry onto the last line.
+	content, err := os.ReadFile(filePath)
+	if err != nil {
+		return err
+	}
+	if len(content) > 0 && content[len(content)-1] != '\n' {
+		line = "\n" + line
+	}
 	file, err := os.OpenFile(filePath, os.O_APPEND|os.O_WRONLY, 0660)
 	if err != nil {
 		return err
@@ -371,7 +381,7 @@ func removeLineFromFile(filePath, line string) error {
 
 	scanner := bufio.NewScanner(f)
 	for scanner.Scan() {
-		if scanner.Text() != line {
+		if normalizeIniLine(scanner.Text()) != line {
 			_, err := buf.Write(scanner.Bytes())
 			if err != nil {
 				return err
@@ -391,6 +401,18 @@ func removeLineFromFile(filePath, line string) error {
 		return err
 	}
 	return nil
+}
+
+// normalizeIniLine maps the spellings the ini parser accepts for an entry
+// ("key = value", surrounding blanks) to the "key=value" form this package
+// writes, so that entries written by hand can be found again.
+func normalizeIniLine(l string) string {
+	l = strings.TrimSpace(l)
+	key, value, found := strings.Cut(l, "=")
+	if !found {
+		return l
+	}
+	return strings.TrimSpace(key) + "=" + strings.TrimSpace(value)
 }
 
 func (p *Policy) reload(r io.Reader) error {
